@@ -539,4 +539,105 @@ theorem qsortFB_refines (hs : 0 < size) : ∀ (fuel : Nat) (rs : List Int) (a : 
 
 end main
 
+/-! ## bsearch / upper_bound / lower_bound on bytes -/
+
+section bsearchB
+variable {size : Nat} {κ : Type} (cmp : κ → List Byte → Int) (key : κ)
+
+/-- `left + ((right - left) / (size << 1) * size)` is the element-index midpoint -/
+theorem mid_off (hs : 0 < size) (l r : Nat) :
+    l * size + ((r * size - l * size) / (size * 2) * size) = (l + (r - l) / 2) * size := by
+  rw [← Nat.sub_mul, Nat.mul_comm size 2, Nat.mul_comm (r - l) size, Nat.mul_comm 2 size,
+    Nat.mul_div_mul_left _ _ hs, Nat.add_mul]
+
+theorem bsLoopB_refines (hs : 0 < size) (a : List (List Byte)) (h : Uniform size a) : ∀ (f l r : Nat),
+    bsLoopB cmp key size a.flatten f (l * size) (r * size) =
+      (bsLoop cmp key a f l r).map fun p => (p.1 * size, p.2 * size) := by
+  intro f
+  induction f with
+  | zero => intro l r; rfl
+  | succ f ih =>
+    intro l r
+    unfold bsLoopB bsLoop
+    by_cases hlr : l + 1 < r
+    · have : l * size + size < r * size := by
+        rw [off_succ]; exact Nat.mul_lt_mul_of_pos_right hlr hs
+      rw [if_pos this, if_pos hlr]
+      simp only
+      rw [mid_off hs, elemAt_flatten hs a h]
+      cases a[l + (r - l) / 2]? with
+      | none => rfl
+      | some x =>
+        simp only
+        by_cases hc : cmp key x < 0
+        · rw [if_pos hc, if_pos hc, ih]
+        · rw [if_neg hc, if_neg hc, ih]
+    · have : ¬ l * size + size < r * size := by
+        rw [off_succ]; intro h'; exact hlr (Nat.lt_of_mul_lt_mul_right h')
+      rw [if_neg this, if_neg hlr]
+      rfl
+
+theorem bsearchB_refines (hs : 0 < size) (a : List (List Byte)) (h : Uniform size a) :
+    bsearchB cmp key size a.flatten a.length = (bsearch cmp key a).map fun r => r.map (· * size) := by
+  unfold bsearchB bsearch
+  by_cases h0 : a.length = 0
+  · rw [if_pos h0, if_pos h0]; rfl
+  · rw [if_neg h0, if_neg h0]
+    have e0 : (0 : Nat) = 0 * size := (Nat.zero_mul _).symm
+    rw [Nat.mul_comm size a.length]
+    conv => lhs; rw [e0]
+    rw [bsLoopB_refines cmp key hs a h]
+    cases bsLoop cmp key a (a.length + 1) 0 a.length with
+    | none => rfl
+    | some p =>
+      obtain ⟨left, right⟩ := p
+      simp only [Option.map_some]
+      rw [elemAt_flatten hs a h]
+      cases a[left]? with
+      | none => rfl
+      | some x =>
+        simp only
+        by_cases hc : cmp key x = 0
+        · rw [if_pos hc, if_pos hc]; rfl
+        · rw [if_neg hc, if_neg hc]; rfl
+
+theorem bndLoopB_refines (hs : 0 < size) (p : List Byte → Bool) (a : List (List Byte)) (h : Uniform size a) : ∀ (f l r : Nat),
+    bndLoopB size a.flatten p f (l * size) (r * size) = (bndLoop p a f l r).map (· * size) := by
+  intro f
+  induction f with
+  | zero => intro l r; rfl
+  | succ f ih =>
+    intro l r
+    unfold bndLoopB bndLoop
+    by_cases hlr : l < r
+    · rw [if_pos (Nat.mul_lt_mul_of_pos_right hlr hs), if_pos hlr]
+      simp only
+      rw [mid_off hs, elemAt_flatten hs a h]
+      cases a[l + (r - l) / 2]? with
+      | none => rfl
+      | some x =>
+        simp only
+        cases p x with
+        | true => simp only [if_true]; rw [ih]
+        | false => simp only [Bool.false_eq_true, if_false]; rw [off_succ, ih]
+    · have : ¬ l * size < r * size := fun h' => hlr (Nat.lt_of_mul_lt_mul_right h')
+      rw [if_neg this, if_neg hlr]
+      rfl
+
+theorem boundsB_refine (hs : 0 < size) (a : List (List Byte)) (h : Uniform size a) :
+    upperBoundB cmp key size a.flatten a.length = (upperBound cmp key a).map (· * size) ∧
+    lowerBoundB cmp key size a.flatten a.length = (lowerBound cmp key a).map (· * size) := by
+  have e0 : (0 : Nat) = 0 * size := (Nat.zero_mul _).symm
+  constructor
+  · unfold upperBoundB upperBound
+    rw [Nat.mul_comm size a.length]
+    conv => lhs; rw [e0]
+    exact bndLoopB_refines hs _ a h _ _ _
+  · unfold lowerBoundB lowerBound
+    rw [Nat.mul_comm size a.length]
+    conv => lhs; rw [e0]
+    exact bndLoopB_refines hs _ a h _ _ _
+
+end bsearchB
+
 end Igris.C11
